@@ -3,7 +3,9 @@
 # Confirms in a scratch worktree of /repo: suite passes with the patch, demo fails with it and passes without it.
 # env: WT=<worktree root holding out/mN> (default /tmp/wt-$P), TAG=<prefix for the stored id, e.g. w2>
 P=$1; M=$2; shift 2
-SRC=${WT:-/tmp/wt-$P}/out/$M
+# a new change comes from the sub-agent's worktree (TAG names its wave); a stored one from /verif/seeded
+SRC=/verif/seeded/$P-$M
+[ -n "${TAG:-}" ] && SRC=${WT:-/tmp/wt-$P}/out/$M
 [ -f $SRC/patch.diff ] || SRC=/verif/seeded/$P-${TAG:-}$M
 [ -f $SRC/patch.diff ] || { echo "no patch for $P $M"; exit 2; }
 W=$(mktemp -d /tmp/ev.XXXXXX); rmdir $W
